@@ -16,17 +16,21 @@ SUBSET_POS = {"a": [4, 0], "b": [6, 0, 3], "c": [10, 0, 5, 2], "d": [12, 0, 7, 3
 
 UNIFORM_LENGTHS = {k: (3 if k != "s" else 1) for k in LENGTHS}
 UNIFORM_SUBSET_POS = {k: [2, 0] for k in SUBSET_POS}
-MODE = {"lengths": "distinct"}     # "uniform": all dimensions (and all selections) have the same length, so that a
+MODE = {"lengths": "distinct", "names": "distinct"}     # "uniform": all dimensions (and all selections) have the same length, so that a
 #                                    shape comparison cannot tell two dimensions apart (silent-transposition class)
 
 
 def in_length_mode(mode, thunk):
-    old = MODE["lengths"]
-    MODE["lengths"] = mode
+    """mode: 'uniform' (all lengths equal) and/or 'samenames' (all dimensions carry the SAME name - only their letters differ;
+    the validators allow it), joined by '+'"""
+    old = dict(MODE)
+    parts = mode.split("+")
+    MODE["lengths"] = "uniform" if "uniform" in parts else "distinct"
+    MODE["names"] = "same" if "samenames" in parts else "distinct"
     try:
         c = thunk()
     finally:
-        MODE["lengths"] = old
+        MODE.update(old)
     if c is not None and hasattr(c, "inp") and mode != "distinct":
         c.inp = dict(c.inp, lengths=mode)
     return c
@@ -56,6 +60,7 @@ class World:
         self.DimensionSet = prog.cls("DimensionSet")
         self.FlodymArray = prog.cls("FlodymArray")
         self._dims = {}
+        self.same_names = MODE["names"] == "same"
 
     # ---- construction (through the analysed constructors and validators)
     def items(self, letter, n=None):
@@ -64,7 +69,7 @@ class World:
     def dim(self, letter, n=None, fresh=False):
         if letter in self._dims and not fresh and n is None:
             return self._dims[letter]
-        d = self.it.construct(self.Dimension, [], dict(name=letter * 2, letter=letter, items=ItemList(self.items(letter, n))))
+        d = self.it.construct(self.Dimension, [], dict(name="same name" if self.same_names else letter * 2, letter=letter, items=ItemList(self.items(letter, n))))
         if n is None and not fresh:
             self._dims[letter] = d
         return d
